@@ -15,6 +15,7 @@
    the delta threshold or `<` to `<=` at the size threshold breaks
    [C18_delta_iff] / [C18_sizes_iff]. *)
 From Robsd Require Import Report.DurationSpec Report.ReportProofs Report.DurationProofs Inv.LsProofs.
+From RobsdGen Require Gen_Step.
 From Coq Require Import Sorting.Sorted Sorting.Permutation.
 Local Open Scope N_scope.
 
@@ -131,6 +132,14 @@ Theorem C18_shell_equals_C : forall m rows,
   sh_total m rows = c_total m rows /\ c_total m rows = spec_accumulated m rows.
 Proof. exact shell_equals_C. Qed.
 Print Assumptions C18_shell_equals_C.
+
+(* the row step_eval <i> delivers to the shell loop is the one robsd-step -R -i <i>
+   selects in C01's model of that helper *)
+Theorem C18_shell_step_eval : forall (rows : list row) i,
+  (Gen_Step.id_min <= i <= Gen_Step.id_max)%Z ->
+  sh_select (map view rows) i = omap view (select_row rows (ById (render_Z i))).
+Proof. exact sh_select_is_robsd_step. Qed.
+Print Assumptions C18_shell_step_eval.
 
 (* no int64_t overflow in the sum for fewer than 2^22 rows within +-2^40 *)
 Theorem C18_total_fits : forall rows,
